@@ -6,3 +6,6 @@ From WM Require Export Corr.C08.
 Definition c09_violates (c : wcase) : bool :=
   negb (c09_monitor_st (w_ops c) (w_obs c)) || (plain (w_ops c) && negb (c09_monitor (w_ops c) (w_obs c))).
 Definition c09_violations (cs : list wcase) : list nat := positions (map c09_violates cs).
+
+Definition c09_lviolates (c : lcase) : bool := c09_violates (lc_wc c).
+Definition c09_lviolations (cs : list lcase) : list nat := positions (map c09_lviolates cs).
